@@ -53,7 +53,7 @@ def reset():
 STREAMS = {}
 
 
-def replay(hist, shared=False, mediated=False, keep_streams=False):
+def replay(hist, shared=False, mediated=False, keep_streams=False, ctx_deact=False):
     """mediated=True: while an activation is in force, an unpickler with additions is constructed through the pickle
     module (`pickle.Unpickler(f, also_allow=A)`, the class the activation installed) rather than by naming the class.
     shared=True: the caller keeps ONE additions list per use (activations / constructions) and edits it in place; no
@@ -65,7 +65,11 @@ def replay(hist, shared=False, mediated=False, keep_streams=False):
     for op in hist:
         inst = None
         if op == "deact":
-            hook.remove_hook()
+            if ctx_deact:               # the environment is deactivated from inside an open safety context
+                with fickling.check_safety():
+                    hook.remove_hook()
+            else:
+                hook.remove_hook()
             active = False
         elif op.startswith("act"):
             a = ADD[op[-1]]
@@ -118,7 +122,7 @@ def main():
         m, n = g.rsplit(".", 1)
         if (m in BASE0 and n in BASE0[m]) != want:
             raise SystemExit(f"vocabulary assumption broken: {g} in built-in allowlist = {not want}")
-    out = [{"id": i, "hist": h, "steps": replay(h, shared=(i % 2 == 1), mediated=(i % 4 >= 2), keep_streams=(i % 3 == 0))} for i, h in enumerate(hists)]
+    out = [{"id": i, "hist": h, "steps": replay(h, shared=(i % 2 == 1), mediated=(i % 4 >= 2), keep_streams=(i % 3 == 0), ctx_deact=(i % 5 == 0))} for i, h in enumerate(hists)]
     json.dump(out, open(sys.argv[2], "w"))
 
 
